@@ -359,15 +359,28 @@ for du, dv in V[tuple(a.flips)]:
     if i < 0 or j < 0 or i + j > 2**h: bad("cell-outside-segment-triangle:h=%%d" %% h)
 print("ok")
 """ % (inp["s"], p["h"], p["invert_j"], p["flip_ij"]), "description": "filling"}
-    # lemma candidates: try the real round trip on every index of small levels and of the level of the witness
+    # lemma candidates: try the real round trip on every index of small levels, on random indices and on
+    # digit-pattern-directed indices (cells hugging the edges of coarse triangles: X000.., X333.., +-1) of deep levels
     h = p.get("h", 3)
     return {"script": _PRE + """
 import random
 rnd = random.Random(7)
 for o in %r:
     for h in sorted({1, 2, 3, 4, %d}):
-        ss = range(4**h) if h <= 4 else [rnd.randrange(4**h) for _ in range(3000)]
+        ss = range(4**h) if h <= 4 else [rnd.randrange(4**h) for _ in range(2000)]
         for s in ss:
+            if rt(s, h, o) != s: bad("round-trip-mismatch:h=%%d,%%s" %% (h, o))
+    for h in (12, 19, 20, 21, 22, 23, 24, 26, 28):
+        cand = set()
+        for lead in range(1, 16):
+            for nd in (1, 2):
+                if lead >= 4 ** nd or nd > h: continue
+                base = lead * 4 ** (h - nd)
+                for tail in (0, 4 ** (h - nd) - 1, (4 ** (h - nd) - 1) // 3, 2 * (4 ** (h - nd) - 1) // 3):
+                    for d in (-1, 0, 1):
+                        v = base + tail + d
+                        if 0 <= v < 4 ** h: cand.add(v)
+        for s in sorted(cand):
             if rt(s, h, o) != s: bad("round-trip-mismatch:h=%%d,%%s" %% (h, o))
 print("ok")
 """ % ([p["o"]] if "o" in p else ORIENTATIONS, h), "description": "lemma witness -> real round trip", "candidate": True}
